@@ -132,7 +132,7 @@ def gen_target(rng, sys, kind=None):
     return "below", b, None
 
 
-def make_estimator(sys, w=1.0):
+def make_estimator(sys, w=1.0, used=None):
     """ReceptorEstimator whose registered capture matrix is exactly sys['A'] (delta-like filters
     on interior points of a unit-step domain, sources carrying the columns of A)."""
     import dreye
@@ -146,7 +146,27 @@ def make_estimator(sys, w=1.0):
                                   K=(1.0 if sys["K"] is None else sys["K"]), baseline=sys["baseline"])
     est.register_system(sources, lb=sys["lb"], ub=sys["ub"])
     assert np.array_equal(est.A, sys["A"]), "estimator A differs from the generated capture matrix"
+    if used is None:
+        # one estimator in three (decided by the content of the system, so that a replay makes the same choice)
+        used = int(np.abs(sys["A"]).sum() * 8 + np.abs(np.asarray(sys["lb"], dtype=float)).sum() * 16 + n) % 3 == 0
+    if used:
+        prior_use(est, sys)
     return est
+
+
+def prior_use(est, sys):
+    """the estimator has answered other questions before the judged call: queries are pure (C14), so nothing of this may show
+    (in-place updates of the registered matrices, caches filled by another kind of query)"""
+    n = sys["n"]
+    lb = np.asarray(sys["lb"], dtype=float); ub = np.where(np.isfinite(sys["ub"]), sys["ub"], lb + 4.0)
+    x = lb + (ub - lb) * 0.375
+    t = []
+    warm(lambda: t.append(np.atleast_2d(est.system_relative_capture(x))))
+    if not t:
+        return
+    for fn in (lambda: est.in_hull(t[0], relative=True), lambda: est.in_hull(t[0] * 1.5, relative=False), lambda: est.fit(t[0] + 0.25),
+               lambda: est.system_capture(x)):
+        warm(fn)
 
 
 def sibling(sys):
